@@ -108,11 +108,142 @@ def _solver(timeout_ms):
     return s
 
 
+_GROUND = dict(status=dict(), apps=dict(), keep=list())
+
+
+class _Raw:
+    """The ctypes entry points behind z3core's wrappers (without the per-call
+    error check): read-only AST inspection only."""
+
+    def __getattr__(self, name):
+        f = getattr(z3.z3core, name).__defaults__[-1].f
+        setattr(self, name, f)
+        return f
+
+
+_RAW = _Raw()
+
+
+def reset_ground_cache():
+    _GROUND['status'].clear()
+    _GROUND['apps'].clear()
+    del _GROUND['keep'][:]
+
+
+def _ground_atoms(formulas):
+    """If every application of an uninterpreted function in `formulas` has only
+    the literals true/false as arguments, return [(application, fresh atom)].
+
+    Distinct argument tuples of an uninterpreted function are independent, so
+    replacing each such application by its own propositional atom gives an
+    equisatisfiable formula (and a model of one translates into a model of the
+    other; `_check_ground` re-checks every model against the original
+    formulas).  Returns None when some application has a non-literal argument.
+    The scan is cached per process over hash-consed sub-terms (the scanned
+    formulas are kept alive, so identifiers stay valid); the returned list may
+    mention applications of earlier queries, which is harmless.
+    """
+    lib = _RAW
+    c = z3.main_ctx().ref()
+    status, apps = _GROUND['status'], _GROUND['apps']
+    _GROUND['keep'].extend(formulas)
+    UNINT, TRUE, FALSE = z3.Z3_OP_UNINTERPRETED, z3.Z3_OP_TRUE, z3.Z3_OP_FALSE
+    ok = True
+    for f in formulas:
+        root = f.as_ast()
+        rid = lib.Z3_get_ast_id(c, root)
+        if rid in status:
+            ok = ok and status[rid]
+            continue
+        stack = [(root, rid, None)]
+        while stack:
+            a, i, kids = stack.pop()
+            if kids is not None:
+                status[i] = all(status[k] for k in kids)
+                continue
+            if i in status:
+                continue
+            kind = lib.Z3_get_ast_kind(c, a)
+            if kind == z3.Z3_NUMERAL_AST:
+                status[i] = True
+                continue
+            if kind != z3.Z3_APP_AST:
+                status[i] = False      # quantifier or bound variable
+                continue
+            app = lib.Z3_to_app(c, a)
+            n = lib.Z3_get_app_num_args(c, app)
+            dk = lib.Z3_get_decl_kind(c, lib.Z3_get_app_decl(c, app))
+            if dk == UNINT and n > 0:
+                good = True
+                for k in range(n):
+                    x = lib.Z3_get_app_arg(c, app, k)
+                    if lib.Z3_get_ast_kind(c, x) != z3.Z3_APP_AST:
+                        good = False
+                        break
+                    xk = lib.Z3_get_decl_kind(c, lib.Z3_get_app_decl(c, lib.Z3_to_app(c, x)))
+                    if xk != TRUE and xk != FALSE:
+                        good = False
+                        break
+                if good:
+                    e = z3.z3._to_expr_ref(a, z3.main_ctx())
+                    good = z3.is_bool(e)
+                    if good:
+                        apps[i] = (e, z3.Bool(f'ga!{len(apps)}'))
+                status[i] = good
+                continue
+            kids = list()
+            todo = list()
+            for k in range(n):
+                x = lib.Z3_get_app_arg(c, app, k)
+                xi = lib.Z3_get_ast_id(c, x)
+                kids.append(xi)
+                if xi not in status:
+                    todo.append((x, xi, None))
+            stack.append((a, i, kids))
+            stack.extend(todo)
+        ok = ok and status[rid]
+    if not ok or len(apps) < 64:
+        return None
+    return list(apps.values())
+
+
+def _check_ground(formulas, sub, timeout_ms):
+    """Decide `formulas` through the propositional abstraction `sub`."""
+    s = _solver(timeout_ms)
+    s.add(z3.substitute(z3.And(*formulas), *sub))
+    r = s.check()
+    if r == z3.unsat:
+        return 'unsat', None
+    if r != z3.sat:
+        return 'unknown', None
+    # translate the model back: fix the value of every application and let the
+    # solver complete it over the original vocabulary (unit propagation)
+    m = s.model()
+    s2 = _solver(timeout_ms)
+    for f in formulas:
+        s2.add(f)
+    for e, a in sub:
+        s2.add(e == z3.BoolVal(z3.is_true(m.eval(a, model_completion=True))))
+    if s2.check() == z3.sat:
+        return 'sat', s2.model()
+    return 'unknown', None
+
+
 def check_sat(formulas, timeout_ms=None):
     """Return ('sat'|'unsat'|'unknown', model|None, seconds, backend)."""
     if timeout_ms is None:
         timeout_ms = QUERY_TIMEOUT_MS
     t0 = time.time()
+    formulas = [f.t if isinstance(f, SymBool) else f for f in formulas]
+    if not os.environ.get('OVC_NO_GROUND_ATOMS'):
+        try:
+            sub = _ground_atoms([f for f in formulas if z3.is_expr(f)])
+        except Exception:
+            sub = None
+        if sub and all(z3.is_expr(f) for f in formulas):
+            st, model = _check_ground(formulas, sub, timeout_ms)
+            if st != 'unknown':
+                return st, model, time.time() - t0, 'z3-5.1(py), ground applications as atoms'
     s = _solver(timeout_ms)
     for f in formulas:
         s.add(f)
@@ -124,6 +255,9 @@ def check_sat(formulas, timeout_ms=None):
         return 'unsat', None, dt, 'z3-5.1(py)'
     # retry with the other installed solvers on the exported query
     smt = s.to_smt2()
+    if os.environ.get('OVC_DUMP_UNKNOWN'):     # development aid
+        with open(os.path.join(os.environ['OVC_DUMP_UNKNOWN'], f'q{os.getpid()}_{int(t0 * 1000) % 10**8}.smt2'), 'w') as f_:
+            f_.write(smt)
     for name, cmd in (
             ('z3-4.8.12', ['/usr/bin/z3', '-smt2', f'-T:{max(1, timeout_ms // 1000)}']),
             ('cvc5-1.0.3', ['/usr/bin/cvc5', '--lang=smt2',
